@@ -132,6 +132,16 @@ impl RefModel {
 
 /// RVX_CASE=<id> restricts the enumeration to one case (replay)
 pub fn case_selected(id: &str) -> bool {
+    // RVX_CASE_STRIDE=n keeps every n-th case of the enumeration (by a hash of the case id): used by C18 for
+    // its re-run of the C07 space under overflow checks in the quick tier
+    if let Ok(n) = std::env::var("RVX_CASE_STRIDE") {
+        if let Ok(n) = n.parse::<u64>() {
+            if n > 1 && !id.starts_with("editsweep") && !id.starts_with("lenwidth") {
+                let h = id.bytes().fold(1469598103934665603u64, |h, b| (h ^ b as u64).wrapping_mul(1099511628211));
+                if h % n != 0 { return false; }
+            }
+        }
+    }
     match std::env::var("RVX_CASE") { Ok(c) if !c.is_empty() => c == id, _ => true }
 }
 
@@ -199,7 +209,7 @@ pub fn for_each_case<F: Fn(&Case) + Sync>(rep: &Report, thorough: bool, f: F) {
         let menu = rm.menu(ci + r);
         // all single edits; all ordered pairs for the first configs (quick) / all configs (thorough)
         let mut seqs: Vec<Vec<Edit>> = menu.iter().map(|e| vec![e.clone()]).collect();
-        let pairs_here = thorough || ci < 3;
+        let pairs_here = thorough || ci < 2;
         if pairs_here {
             for (a, ea) in menu.iter().enumerate() {
                 for eb in menu.iter().skip(a + 1) {
